@@ -299,3 +299,25 @@ v("C04", CA, "                self._device_address_announced = self._device_addr
   "                self._device_address_announced = self._device_address_preferred\n                self._send_address_claimed(self._device_address_announced)\n                if self._device_address_announced > 127", "break", "first claim sent while still in NONE (original defect D20)")
 v("C18", M, "                            self.state = DMState.WAIT_RESPONSE\n                            if self._proceed_function is not None:",
   "                            self.state = DMState.WAIT_RESPONSE\n                            self._ca.unsubscribe(self._listen_for_dm14)\n                            if self._proceed_function is not None:", "break", "facade deaf after a refusal at the proceed callback (original defect D21)")
+
+# ---------------------------------------------------------------- added after the fourth seeded round
+v("C15,C05", "parameter_group_number.py", "self.pdu_format>=240 and self.pdu_format<=255", "self.value>=0xF000", "break", "PDU2 test on the whole value: wrong on data page 1 (seeded C15E)")
+v("C15", "parameter_group_number.py", "self.pdu_format>=240 and self.pdu_format<=255", "self.pdu_format > 239", "keep", "respelled")
+v("C15,C04", "name.py", "self.ecu_instance = (value >> 32) & ((2 ** 3) - 1)", "self.ecu_instance = int(value / (2 ** 32)) & ((2 ** 3) - 1)", "break", "float division on a 64-bit value (seeded C15F)")
+v("C15", "name.py", "self.ecu_instance = (value >> 32) & ((2 ** 3) - 1)", "self.ecu_instance = (value // (2 ** 32)) & 7", "keep", "floor division is exact")
+v("C13,C14", CA, "            self._device_address = self._device_address_announced\n            self._device_address_state = ControllerApplication.State.NORMAL\n        elif self._device_address_state == ControllerApplication.State.NORMAL:",
+  "            self._device_address_state = ControllerApplication.State.NORMAL\n            self._device_address = self._device_address_announced\n        elif self._device_address_state == ControllerApplication.State.NORMAL:", "break", "NORMAL before the held address (seeded C14F)")
+v("C09", ECU, "max_cmdt_packets, minimum_tp_rts_cts_dt_interval, minimum_tp_bam_dt_interval, self._is_message_acceptable)\n        elif", "max_cmdt_packets, minimum_tp_bam_dt_interval, minimum_tp_rts_cts_dt_interval, self._is_message_acceptable)\n        elif", "break", "pacing intervals swapped in the J1939-21 constructor call (seeded C09F)")
+v("C11,C13", CA, "self._device_address, data, time_limit, frame_format)", "self._device_address, data, time_limit)", "break", "frame format accepted but not forwarded (seeded C11F)")
+v("C11,C13", CA, "self._device_address, data, time_limit, frame_format)", "self._device_address, data, frame_format=frame_format, time_limit=time_limit)", "keep", "forwarded by keyword")
+v("C05,C12", ECU, "            if dic['cb'] == callback:\n                self._subscribers.remove(dic)", "            if dic['cb'] == callback:\n                self._subscribers.remove(dic)\n                break", "break", "unsubscribe stops after the first binding (seeded C05F)")
+v("C12", ECU, "        for event in list(self._timer_events):\n            if event['callback'] == callback:\n                self._timer_events.remove( event )", "        self._timer_events = [event for event in list(self._timer_events) if event['callback'] != callback]", "break", "registry rebuilt from a snapshot (seeded C12F)")
+v("C01,C07,C12", ECU, "self._job_thread_wakeup_queue = queue.Queue()", "self._job_thread_wakeup_queue = queue.Queue(maxsize=64)", "break", "bounded wake-up queue with a blocking put (seeded C01F/C07F)")
+v("C01,C07,C12", ECU, "self._job_thread_wakeup_queue = queue.Queue()", "self._job_thread_wakeup_queue = queue.Queue(maxsize=0)", "keep", "maxsize 0 is unbounded")
+v("C01,C07", ECU, "self._job_thread_wakeup_queue = queue.Queue()", "self._job_thread_wakeup_queue = queue.SimpleQueue()", "keep", "SimpleQueue is unbounded")
+v("C01", J21, "            if buffer_hash in self._rcv_buffer:\n                # according SAE J1939-21 we have to send an ABORT if an active", "            if (buffer_hash in self._rcv_buffer) or (self._buffer_hash(dest_address, src_address) in self._snd_buffer):\n                # according SAE J1939-21 we have to send an ABORT if an active", "break", "RTS refused while an own send session to the peer exists (seeded C01E)")
+v("C08,C07", J21, "        for bufid in list(self._rcv_buffer):", "        supervised = [bufid for bufid, buf in self._rcv_buffer.items() if buf['deadline'] != 0]\n        for bufid in supervised:", "break", "snapshot built step by step over a live view (seeded C08F)")
+v("C08", J21, "        for bufid in list(self._rcv_buffer):", "        for bufid in list(self._rcv_buffer.keys()):", "keep", "list() of a view is atomic")
+v("C17", Q, "            bytes.extend(val.to_bytes(self.object_byte_size, byteorder=\"little\"))", "            bytes.extend(val.to_bytes(self.object_byte_size, byteorder=\"little\", signed=self.signed))", "break", "converter reads a field only reads set (seeded C17E)")
+v("C19", S, "            case ResponseState.SEND_ERROR:\n", "            case ResponseState.SEND_ERROR:\n                self._ca.unsubscribe(self.parse_dm14)\n", "break", "busy answer removes the running transaction's handler (seeded C19F)")
+v("C04", CA, "            or (self._device_address_state == ControllerApplication.State.NORMAL and src_address == self._device_address)", "            or (src_address == self._device_address)", "break", "state guard of the NORMAL arm dropped (seeded C04E)")
